@@ -156,6 +156,12 @@ func (n *DestinationAckerNode) worker(
 					handleError(msg, cerrors.Errorf("error while fetching acks: %w", err))
 					return
 				}
+				if len(acks) == 0 {
+					// An empty response acknowledges nothing, we can't match
+					// it to the message we are waiting on.
+					handleError(msg, cerrors.New("received an empty ack response from the destination"))
+					return
+				}
 			}
 
 			ack := acks[0]
